@@ -24,6 +24,8 @@ def truncation_cases(ctx, cases):
         if not e or e[0] != 'ok':
             continue
         b = e[3]
+        for f in c.get('features', {}):
+            ctx.dist['truncated: ' + f] += 1
         case = {'ids': c['ids'], 'seed': c['seed'], 'forced': c['forced'], 'nsub': c['nsub'],
                 'version': c['version'], 'edition': c['edition'], 'compressed': c['compressed']}
         off, ndata = B.data_section_bits(b)
